@@ -263,7 +263,10 @@ func (c *Core) ProcessSender(ctx context.Context, index int, processor MessagePr
 			for msg = range input {
 				if processor != nil {
 					if e := processor.ProcessMessage(ctx, index, msg); e != nil {
-						if !errors.Is(e, context.Canceled) && !errors.Is(e, context.DeadlineExceeded) {
+						// cancellation errors are noise only when this worker's own context is done; the
+						// same error kinds from a datastore read under a live context (a per-read timeout)
+						// mean that input was lost and must be reported like any other read error.
+						if ctx.Err() == nil || (!errors.Is(e, context.Canceled) && !errors.Is(e, context.DeadlineExceeded)) {
 							errCount.Add(1)
 							c.error(&e)
 						}
